@@ -174,9 +174,19 @@ def mutate_init(kind, r, data):
 def generate(seed, tier):
     r = random.Random(f'C02gen:{seed}')
     family = r.choice(['mitm', 'mitm', 'mitm', 'cred', 'plain'])
+    byzpeer = r.random() < 0.07
     o = {'conf': {'profile': 'slow', 'entries': 1, 'slow_dh': r.random() < 0.1}, 'faults': [], 'duration': 9, 'packets': 1, 'both_initiate': False, 'phase': False}
+    if byzpeer:
+        family = 'byzpeer'
+        o['conf'].update(auth='psk', single=r.random() < 0.5)
     sc = workload.pair_scenario(seed, PROP, o)
     sc['meta']['family_kind'] = family
+    if byzpeer:
+        # the configured peer itself (it holds the PSK) answers IKE_SA_INIT with a proposal that lists a never-offered ENCR transform in
+        # front of an offered one and keys the IKE_SA with it: "whenever both sides are established they agree on offered and chosen proposals"
+        workload.to_refpeer(sc, r, {'byz_foreign_first': True, 'cookie': False})
+        sc['meta']['family_kind'] = 'byzpeer'
+        return sc
     ca, cb = sc['nodes']['A']['conf']['to-b'], sc['nodes']['B']['conf']['to-a']
     if family == 'mitm':
         msg = r.choice([1, 1, 2, 2, 3, 4])
@@ -242,6 +252,8 @@ def run(scenario):
                                               'spi_r': sa.peer_spi if sa.is_initiator else sa.my_spi, 'initiator': bool(sa.is_initiator),
                                               'req': bytes(sa.ike_sa_init_req_data or b''), 'res': bytes(sa.ike_sa_init_res_data or b''), 't': w.now}
         w.monitors.append(Deliveries())
+        if scenario.get('refpeer'):
+            ctx['peer'] = workload.attach_refpeer(w, scenario)
         if not mit:
             return
         rr = random.Random(f'mitm:{mit["seed"]}')
@@ -360,6 +372,19 @@ def run(scenario):
         reach['family.' + fam] = 1
         reach['auth.' + scenario['meta']['auth']] = 1
         est = list(ctx['est'].values())
+        if scenario.get('refpeer'):
+            peer = ctx['peer']
+            for k_, v_ in peer.counts.items():
+                reach['refpeer.' + k_] = v_
+            for e in est:
+                s_ = peer.sessions.get(e['spi_r'])
+                if s_ is not None and s_.foreign:
+                    return V('established_on_proposal_not_offered', {},
+                             f'{e["node"]} marked IKE_SA {e["spi_i"].hex()}/{e["spi_r"].hex()} established although the (authenticated) responder chose - and keyed '
+                             f'the IKE_SA with - an ENCR transform the initiator never offered, listed in front of an offered one')
+            if peer.counts.get('byz_foreign_first') and not est:
+                reach['failed_as_required'] = reach.get('failed_as_required', 0) + 1
+            return
         idx = {n: newsa_index(node) for n, node in w.nodes.items()}
         sent = {n: [e['data'] for e in ctx['wire'].by_sender.get(n, [])] for n in w.nodes}
         # ---- whoever established: the IKE_SA_INIT octets it authenticated over are octets it really sent / received
